@@ -57,11 +57,15 @@ UNITS = [
      'static const int32 vs_nt_codes[10] = {DFNT_UCHAR8, DFNT_CHAR8, DFNT_FLOAT32, DFNT_FLOAT64, DFNT_INT8, DFNT_UINT8, DFNT_INT16, DFNT_UINT16, DFNT_INT32, DFNT_UINT32};\n'
      'static long long *vs_nt_sizes(int native) { static long long t[2][10]; for (int i = 0; i < 10; i++) t[native][i] = DFKNTsize(vs_nt_codes[i] | (native ? DFNT_NATIVE : 0)); return t[native]; }\n'
      'static int vs_host_le(void) { int one = 1; return *(unsigned char *)&one; }\n'
-     'static long long *vs_map_old(void) { static long long t[16]; for (int i = 0; i < 16; i++) t[i] = map_from_old_types(i); return t; }\n',
+     'static long long *vs_map_old(void) { static long long t[16]; for (int i = 0; i < 16; i++) t[i] = map_from_old_types(i); return t; }\n'
+     # the reserved-symbol table of vsfld.c, member by member (the names as NUL-terminated rows)
+     'static long long *vs_rstab(int m) { static long long t[3][NRESERVED]; for (int i = 0; i < (int)NRESERVED; i++) { t[0][i] = rstab[i].type; t[1][i] = rstab[i].isize; t[2][i] = rstab[i].order; } return t[m]; }\n',
      ["VDATA_BUFFER_MAX", "_HDF_VSPACK", "_HDF_VSUNPACK", "NRESERVED", ("HOST_LE", "vs_host_le()")],
      [("NT_CODES", "vs_nt_codes", "10"), ("NT_SIZES", "vs_nt_sizes(0)", "10"), ("NT_NSIZES", "vs_nt_sizes(1)", "10"),
       # C07 function-level cross-run of vunpackvs: map_from_old_types (vconv.c) on the old type codes 0..15 (every other value maps to itself)
-      ("MAP_OLD_TYPES", "vs_map_old()", "16")]),
+      ("MAP_OLD_TYPES", "vs_map_old()", "16"),
+      ("RSTAB_TYPE", "vs_rstab(0)", "NRESERVED"), ("RSTAB_ISIZE", "vs_rstab(1)", "NRESERVED"), ("RSTAB_ORDER", "vs_rstab(2)", "NRESERVED"),
+      ("RSTAB_NAME", "rstab[i].name", "NRESERVED", "str")]),
     ("Crle", '#include "hdf_priv.h"\n#include "%s/crle.c"\n' % HS,
      ["RUN_MASK", "COUNT_MASK", "RLE_BUF_SIZE", "RLE_MIN_RUN", "RLE_MAX_RUN", "RLE_MIN_MIX", "RLE_NIL",
       "TMP_BUF_SIZE"],   # chunk size of the forward part of HCPcrle_seek (session model lean/H4/RleSess.lean)
@@ -309,6 +313,18 @@ FNUNITS = [
     ("Vgp", "hdf/src/vgp.c", ["vpackvg"], {"ignore_calls": ["HEclear", "HEPclear", "HEpush"]}),
     # C07 / C02: the vdata header encoder (field table, field names = an array of rows)
     ("Vio", "hdf/src/vio.c", ["vpackvs"], {"ignore_calls": ["HEclear", "HEPclear", "HEpush"]}),
+    # C07 / C20: the number-type size switch (its result feeds the field-size limits of VSfdefine / VSsetfields)
+    ("Dfconv", "hdf/src/dfconv.c", ["DFKNTsize"], {"twos_complement_bitops": True}),
+    # C07 / C20: the Vdata schema functions.  Outside the translated text (trusted base, stated in the generated doc comments): the atom
+    # lookups (HAatom_group's answer is the entry parameter vkey_group, HAatom_object's object is the struct `w`), scanattrs (its answer
+    # scan_ret and what it stores through &ac / &av are entry parameters), allocation never fails.  DFKNTsize is the translated function of
+    # unit Dfconv; the reserved-symbol table rstab[] is the generated table of H4.Gen.Vs; usym[] (array of structs) = one region per member.
+    ("Vsfld", "hdf/src/vsfld.c", ["VSfdefine", "VSsetfields"],
+     {"ignore_calls": ["HEclear", "HEPclear", "HEpush"],
+      "assume_calls": {"HAatom_group": "param:vkey_group", "HAatom_object": "object", "scanattrs": "param:scan_ret"},
+      "int_types": {"group_t": [False, 32]}, "use_units": {"Dfconv": ["hdf/src/dfconv.c", ["DFKNTsize"], {"twos_complement_bitops": True}]}, "imports": ["H4.Gen.Vs"], "abbrev": {"w_vs": "vs"}, "null_empties": True,
+      "globals": {"rstab.name": "H4.Gen.Vs.RSTAB_NAME", "rstab.type": "H4.Gen.Vs.RSTAB_TYPE", "rstab.isize": "H4.Gen.Vs.RSTAB_ISIZE",
+                  "rstab.order": "H4.Gen.Vs.RSTAB_ORDER"}}),
     # C09: the interlace converter (blocks allocated with malloc: arrays of flat addresses and of increments; switch on the interlace; the
     # `goto done` idiom; memcpy inside one flat memory).  DFKNTsize's result is the entry parameter comp_size_nt.
     ("Mfgr", "hdf/src/mfgr.c", ["GRIil_convert"],
@@ -456,7 +472,13 @@ def gen_unit(name, prologue, consts, tables, tmp):
     for c in consts:
         ln, ce = (c, c) if isinstance(c, str) else c
         src.append('  printf("C %s %%lld\\n", (long long)(%s));\n' % (ln, ce))
-    for ln, arr, n in tables:
+    for tb in tables:
+        if len(tb) == 4:
+            # table of C strings (the expression mentions the index `i`): one row of character codes per string, each with its NUL
+            ln, arr, n, _ = tb
+            src.append('  printf("S %s"); for (int i=0;i<(int)(%s);i++) { const char *p_ = (%s); printf(" |"); for (;;) { printf(" %%d", (int)(unsigned char)*p_); if (!*p_) break; p_++; } } printf("\\n");\n' % (ln, n, arr))
+            continue
+        ln, arr, n = tb
         src.append('  printf("T %s"); for (int i=0;i<(int)(%s);i++) printf(" %%lld", (long long)(%s)[i]); printf("\\n");\n' % (ln, n, arr))
     src.append("  return 0;}\n")
     cf = os.path.join(tmp, "gen_%s.c" % name)
@@ -482,6 +504,9 @@ def gen_unit(name, prologue, consts, tables, tmp):
             vals = [int(x) for x in p[2:]]
             ty = "Int" if any(v < 0 for v in vals) else "Nat"
             out.append("def %s : List %s := [%s]\n" % (p[1], ty, ", ".join(str(v) for v in vals)))
+        elif p[0] == "S":
+            rows = [r.split() for r in " ".join(p[2:]).split("|")[1:]]
+            out.append("def %s : List (List Int) := [%s]\n" % (p[1], ", ".join("[%s]" % ", ".join(r) for r in rows)))
     out.append("\nend H4.Gen.%s\n" % name)
     return "".join(out)
 
